@@ -19,6 +19,15 @@ from pyvc.types import Ty
 NOOP_CALL_PREFIXES = ("logger.", "logging.", "warnings.")
 
 
+def det_simplify(t):
+    """z3.simplify orders the arguments of and/or by internal ids that differ from run to run; only its verdict
+    true/false is used, the formula itself stays as generated (so that a contract's obligations are the same text every run)."""
+    ts = z3.simplify(t)
+    if z3.is_true(ts) or z3.is_false(ts):
+        return ts
+    return t
+
+
 class Executor(Engine):
     # ------------------------------------------------------------------ module-level names
     def module_imports(self, module: str) -> dict[str, tuple[str, str]]:
@@ -560,7 +569,7 @@ class Executor(Engine):
                     if last:
                         results.append((s1, a))
                         continue
-                    t = z3.simplify(self.truthy(a, s1))
+                    t = det_simplify(self.truthy(a, s1))
                     if is_and:
                         if not z3.is_true(t):
                             results.append((s1.assume(z3.Not(t)), a))
